@@ -3,6 +3,8 @@ package concurrencylimiter
 import (
 	"context"
 	"sync/atomic"
+
+	"github.com/samsarahq/thunder/internal/verifhook"
 )
 
 // A limiter allows goroutines to run with bounded concurrency.
@@ -57,6 +59,7 @@ func (h *holder) release() {
 	// If we currently are acquired, release the token. Otherwise, we are either
 	// blocked or already released.
 	if atomic.SwapInt64(&h.status, released) == acquired {
+		verifhook.Yield("limiter.release.swapped")
 		<-h.l.ch
 	}
 }
@@ -66,6 +69,7 @@ func (h *holder) block(f func()) {
 	// If we are currently acquired, temporarily release the token. Otherwise,
 	// we are either blocked or released.
 	if atomic.CompareAndSwapInt64(&h.status, acquired, blocked) {
+		verifhook.Yield("limiter.block.blocked")
 		<-h.l.ch
 
 		// Before returning from f() we must reacquire.
@@ -74,6 +78,7 @@ func (h *holder) block(f func()) {
 			// (and that release used our token we gave up), and should no longer try to
 			// re-acquire.
 			if atomic.CompareAndSwapInt64(&h.status, blocked, acquired) {
+				verifhook.Yield("limiter.block.reacquiring")
 				h.l.ch <- struct{}{}
 			}
 		}()
